@@ -11,7 +11,8 @@ from ..common import Ctx, b2f, f2b, import_repo, rel_close
 LEVEL = "proof"
 EXPLANATION = (
     "Theorems: scale^2 x terms = 1 for every shape, per op and role (ℝ), plus the abstract second-moment lemma "
-    "E[(c sum t_i)^2] = c^2 |s| under E(t_i t_j) = delta_ij. The check measures the term counts by running the PyTorch "
+    "E[(c sum t_i)^2] = c^2 |s| under E(t_i t_j) = delta_ij; broadcast fibres are uniform (operand numel divides output "
+    "numel for every broadcastable pair of shapes), so add's term counts are exact. The check measures the term counts by running the PyTorch "
     "reference op and its autograd on all-ones tensors (not from a formula), fits the implementation's scalars with "
     "constraint=None, and requires fitted_scale^2 x measured_count = 1 (oracle); model term counts and model scales "
     "are compared with the measured ones (correspondence)."
